@@ -18,8 +18,8 @@ def udp : Iface :=
   { name := ['u', 'd', 'p'],
     positionals := [⟨['h', 'o', 's', 't'], .str, true⟩, ⟨['p', 'o', 'r', 't'], .int, true⟩],
     keywords := [⟨['c', 'o', 'n', 'n', 'e', 'c', 't', '_', 't', 'i', 'm', 'e', 'o', 'u', 't'], .float, false⟩],
-    ctorLinux := some { cls := ['Q', 'M', 'I', '_', 'T', 'c', 'p', 'T', 'r', 'a', 'n', 's', 'p', 'o', 'r', 't'], kind := .tcp, args := [(['h', 'o', 's', 't'], none), (['p', 'o', 'r', 't'], none), (['c', 'o', 'n', 'n', 'e', 'c', 't', '_', 't', 'i', 'm', 'e', 'o', 'u', 't'], some (.int (10)))] },
-    ctorWin := some { cls := ['Q', 'M', 'I', '_', 'T', 'c', 'p', 'T', 'r', 'a', 'n', 's', 'p', 'o', 'r', 't'], kind := .tcp, args := [(['h', 'o', 's', 't'], none), (['p', 'o', 'r', 't'], none), (['c', 'o', 'n', 'n', 'e', 'c', 't', '_', 't', 'i', 'm', 'e', 'o', 'u', 't'], some (.int (10)))] } }
+    ctorLinux := some { cls := ['Q', 'M', 'I', '_', 'U', 'd', 'p', 'T', 'r', 'a', 'n', 's', 'p', 'o', 'r', 't'], kind := .udp, args := [(['h', 'o', 's', 't'], none), (['p', 'o', 'r', 't'], none)] },
+    ctorWin := some { cls := ['Q', 'M', 'I', '_', 'U', 'd', 'p', 'T', 'r', 'a', 'n', 's', 'p', 'o', 'r', 't'], kind := .udp, args := [(['h', 'o', 's', 't'], none), (['p', 'o', 'r', 't'], none)] } }
 
 /-- `TcpTransportDescriptorParser` and the classes `create_transport` builds from it -/
 def tcp : Iface :=
